@@ -92,8 +92,7 @@ def check_grammar(grammar, maxlen=5, limit=3):
     lr, leaders = G.left_recursion(grammar)
     plr = {n for n, r in pg.rules.items() if r.left_recursive and not n.startswith("_")}
     pleaders = {n for n, r in pg.rules.items() if r.leader and not n.startswith("_")}
-    if plr != lr or pleaders != leaders:
-        return {"skip": "leftrec-analysis-differs", "ours": [sorted(lr), sorted(leaders)], "pegen": [sorted(plr), sorted(pleaders)], "grammar": text}
+    analysis_differs = plr != lr or pleaders != leaders  # not a verdict: the token strings below decide
     bad = []
     n = 0
     reached = {"ok": 0, "fail": 0, "raise": 0}
@@ -103,8 +102,8 @@ def check_grammar(grammar, maxlen=5, limit=3):
                 a = run_impl(cls, r["name"], toks)
                 b = run_ref(grammar, r["name"], toks)
                 n += 1
-                if "recursion" in (a[0], b[0]):
-                    continue
+                if b[0] == "recursion":
+                    continue  # the reference ran out of budget: no verdict
                 reached[b[0]] = reached.get(b[0], 0) + 1
                 if a != b:
                     bad.append({"rule": r["name"], "tokens": list(toks), "generated_parser": repr(a), "reference": repr(b)})
@@ -113,7 +112,7 @@ def check_grammar(grammar, maxlen=5, limit=3):
     if bad:
         return {"kind": "semantics-differ", "grammar": text, "cases": bad, "n": n, "code": code[-3000:]}
     feats = sorted({k for r in grammar["rules"] for a in r["alts"] for it in a["items"] for k in _kinds(it)})
-    return {"ok": True, "n": n, "reached": reached, "features": feats, "leftrec": sorted(lr), "memo": [r["name"] for r in grammar["rules"] if r["memo"]], "grammar": text}
+    return {"ok": True, "n": n, "reached": reached, "features": feats, "leftrec": sorted(lr), "memo": [r["name"] for r in grammar["rules"] if r["memo"]], "grammar": text, "analysis_differs": analysis_differs}
 
 
 def _kinds(it):
@@ -136,6 +135,36 @@ FIXED = [
 ]
 
 
+def multi_cycle_family():
+    """Indirectly left-recursive components with TWO cycles that share only some of their rules, under every assignment
+    of the rule names (which rule sorts first/last decides which candidate a leader search looks at): the only rule on
+    both cycles must be the one that grows the seed."""
+    import itertools
+
+    def R(n, name=None):
+        d = {"k": "rule", "n": n}
+        if name:
+            d["name"] = name
+        return d
+
+    def T(s):
+        return {"k": "tok", "s": s}
+
+    out = []
+    for names in itertools.permutations(["r0", "r1", "r2", "r3"]):
+        U, C, P, S = names
+        for shape in (0, 1):
+            rules = {
+                U: [{"items": [R(C, "a"), T("a")], "action": "tuple"}, {"items": [T("c")], "action": None}],
+                C: [{"items": [R(P, "a"), T("b")], "action": "tuple"}],
+                # shape 0: cycles U-C-P-U and P-S-P share only P; shape 1: cycles U-C-P-U and C-P-S-C share C and P
+                P: [{"items": [R(U, "a"), T("c")], "action": "tuple"}, {"items": [R(S, "a"), T("a")], "action": "tuple"}, {"items": [T("a")], "action": None}],
+                S: [{"items": [R(P if shape == 0 else C, "a"), T("b")], "action": "tuple"}],
+            }
+            out.append({"rules": [{"name": n, "memo": False, "alts": rules[n]} for n in sorted(rules)]})
+    return out
+
+
 def run(rep, tier, pool, variants=("shipped",)):
     rep.rule = (
         "random well-formed grammars (1-4 rules, 1-3 alternatives, items: tokens, rule refs, groups, ? * + gather & ! ~ && , memo flags, direct and "
@@ -148,8 +177,11 @@ def run(rep, tier, pool, variants=("shipped",)):
     n = 120 if tier == "quick" else 3000
     maxlen = 5 if tier == "quick" else 6
     gs = list(FIXED)
+    fam = [g for g in multi_cycle_family() if G.well_formed(g)]
+    gs += fam if tier != "quick" else [fam[i] for i in range(0, len(fam), 2)]
+    rep.extra["multi_cycle_grammars"] = len(fam)
     tries = 0
-    while len(gs) < n + len(FIXED) and tries < n * 60:
+    while len(gs) < n + len(FIXED) + len(fam) and tries < n * 60:
         tries += 1
         g = G.gen_grammar(r)
         try:
